@@ -23,13 +23,13 @@ Definition attrs_eqb (a b : list (N * jv)) : bool :=
    a verifier can read (for an SD-JWT: the claims the presented disclosures open) *)
 Definition cred_eqb (a b : cred) : bool :=
   N.eqb (c_id a) (c_id b) && N.eqb (c_issuer a) (c_issuer b) && N.eqb (c_subject a) (c_subject b) &&
-  listN_eqb (c_types a) (c_types b) && Bool.eqb (N.eqb (c_jwt a) 0) (N.eqb (c_jwt b) 0) &&
+  N.eqb (c_ctx a) (c_ctx b) && listN_eqb (c_types a) (c_types b) && Bool.eqb (N.eqb (c_jwt a) 0) (N.eqb (c_jwt b) 0) &&
   Bool.eqb (c_sd a) (c_sd b) && attrs_eqb (c_attrs a) (c_attrs b).
 
 (* Match re-parses the credential: whether it arrived as a JWT is not part of what it returns *)
 Definition cred_eqb_parsed (a b : cred) : bool :=
   N.eqb (c_id a) (c_id b) && N.eqb (c_issuer a) (c_issuer b) && N.eqb (c_subject a) (c_subject b) &&
-  listN_eqb (c_types a) (c_types b) && Bool.eqb (c_sd a) (c_sd b) && attrs_eqb (c_attrs a) (c_attrs b).
+  N.eqb (c_ctx a) (c_ctx b) && listN_eqb (c_types a) (c_types b) && Bool.eqb (c_sd a) (c_sd b) && attrs_eqb (c_attrs a) (c_attrs b).
 
 Fixpoint creds_eqb (a b : list cred) : bool :=
   match a, b with
